@@ -58,6 +58,14 @@ def getF64 (j : Json) : Except String Xs.Conv.F64 :=
       pure (.fin neg m.toNat q)
   | _ => .error "bad f64"
 
+/-- a Decimal as `as_tuple()` shows it: ["fin", neg, "coeff", exp] | ["inf", neg] | ["nan", neg, signaling, "payload"] -/
+def getDec (j : Json) : Except String Xs.Conv.Dec :=
+  match j.getObjValD "dec" with
+  | .arr #[.str "fin", .bool neg, c, x] => do pure (.fin neg (← asBigInt c).toNat (← asBigInt x))
+  | .arr #[.str "inf", .bool neg] => .ok (.inf neg)
+  | .arr #[.str "nan", .bool neg, .bool sg, p] => do pure (.nan neg sg (← asBigInt p).toNat)
+  | _ => .error "bad dec"
+
 def getNats (j : Json) (k : String) : Except String (List Nat) := do
   (← getArr j k).mapM fun x => match x.getNat? with
     | .ok n => pure n
@@ -68,6 +76,7 @@ partial def reprsAgree : Val → Bool
   | .str s r => pyReprStr tblPrintable s == r
   | .bytes _ bs r => pyReprBytes bs == r
   | .float x r => x.repr == r   -- C05's shortest-repr model
+  | .decimal d r => decRepr d == r
   | .list xs => xs.all reprsAgree
   | .tuple xs => xs.all reprsAgree
   | .set _ xs => xs.all reprsAgree
@@ -82,6 +91,7 @@ partial def getVal (j : Json) : Except String Val := do
   | "bool" => pure (.bool (← getBool j "v"))
   | "int" => pure (.int (← asBigInt (j.getObjValD "v")))
   | "float" => pure (.float (← getF64 j) (← getStr j "repr"))
+  | "decimal" => pure (.decimal (← getDec j) (← getStr j "repr"))
   | "str" => pure (.str (← getStr j "v") (← getStr j "repr"))
   | "bytes" => pure (.bytes (← getRef j) (← getNats j "bs") (← getStr j "repr"))
   | "qname" => pure (.qname (← getStr j "text"))
@@ -198,6 +208,10 @@ def run (op : String) (a : Json) : Option (Except String Json) :=
       pure <| match decodeBytesLit t with
         | some r => ok (jList jNat r)
         | none => err "unmodelled"
+  | "c18.decrepr" => some do
+      let d ← getDec a
+      pure <| ok (jObj [("repr", jStr (decRepr d)),
+        ("back", match readDecimal (decRepr d) with | some d' => jBool (d' == d) | none => Json.null)])
   | "c18.pyeq" => some do
       let x ← getVal (a.getObjValD "a")
       let y ← getVal (a.getObjValD "b")
